@@ -1104,6 +1104,15 @@ func (c *Check) perInputTables(rule string, mg *ssa.Function) {
 				dom = false
 			}
 		}
+		if !dom {
+			// the per-input work lives in a helper: the reset and the mapping calls are both
+			// behind the same call of Merge; decide the order inside the helper
+			if call, ok := r.(ssa.CallInstruction); ok {
+				if h := helperCallee(mg, r); h != nil && loopDepth(call.Block()) > 0 {
+					dom = resetPrecedesMapping(h, F, 0)
+				}
+			}
+		}
 		// the stored value is a fresh table
 		if dom && fresh[F] {
 			c.ok(rule, key, p.relFile(r.Pos()), "pm."+F+" is re-created for every input", "a fresh table is stored inside the loop and dominates every mapSample/mapMapping call")
@@ -1156,4 +1165,62 @@ func returnsEmptied(h *ssa.Function) bool {
 		}
 	}
 	return n > 0
+}
+
+// resetPrecedesMapping: in helper h the table F of the merger is emptied or re-made by an
+// instruction (possibly in a nested helper) that dominates every mapSample/mapMapping call
+// reachable from h, and there is such a call.
+func resetPrecedesMapping(h *ssa.Function, F string, depth int) bool {
+	if depth > 2 {
+		return false
+	}
+	isReset := func(ins ssa.Instruction) bool {
+		switch x := ins.(type) {
+		case *ssa.Store:
+			if fa, ok := x.Addr.(*ssa.FieldAddr); ok {
+				T, G := fieldOf(fa.X.Type(), fa.Field)
+				return T == "profile.profileMerger" && G == F
+			}
+		case *ssa.Call:
+			if bi, ok := x.Call.Value.(*ssa.Builtin); ok && bi.Name() == "clear" && len(x.Call.Args) == 1 {
+				if ld, ok := x.Call.Args[0].(*ssa.UnOp); ok {
+					if fa, ok := ld.X.(*ssa.FieldAddr); ok {
+						T, G := fieldOf(fa.X.Type(), fa.Field)
+						return T == "profile.profileMerger" && G == F
+					}
+				}
+			}
+		}
+		return false
+	}
+	isMap := func(ins ssa.Instruction) bool {
+		call, ok := ins.(*ssa.Call)
+		if !ok {
+			return false
+		}
+		sc := call.Call.StaticCallee()
+		return sc != nil && (sc.Name() == "mapSample" || sc.Name() == "mapMapping")
+	}
+	rs := effectiveSites(h, isReset, 2)
+	ms := effectiveSites(h, isMap, 2)
+	if len(rs) == 0 || len(ms) == 0 {
+		return false
+	}
+	for _, m := range ms {
+		ok := false
+		for _, r := range rs {
+			if instrDominates(r.at, m.at) {
+				ok = true
+			}
+			if r.at == m.at {
+				if g := helperCallee(h, r.at); g != nil && resetPrecedesMapping(g, F, depth+1) {
+					ok = true
+				}
+			}
+		}
+		if !ok {
+			return false
+		}
+	}
+	return true
 }
